@@ -632,7 +632,9 @@ func runWriterAfterEndings(r *Run) {
 				return nil
 			})
 		}, []string{"/e1", "/e2"}},
-		{"View", func(rt *fox.Router) { rt.View(func(txn *fox.Txn) error { txn.Has(http.MethodGet, "/old"); return nil }) }, nil},
+		{"View", func(rt *fox.Router) {
+			rt.View(func(txn *fox.Txn) error { txn.Has(http.MethodGet, "/old"); return nil })
+		}, nil},
 		{"Updates left through runtime.Goexit between two writes", func(rt *fox.Router) {
 			done := make(chan struct{})
 			go func() {
